@@ -1,7 +1,7 @@
 import json, os, re
 
 SPEC = {
-    "lean_modules": ["SemaModel.C03.Props", "SemaModel.C03.Tie"],
+    "lean_modules": ["SemaModel.C03.Props", "SemaModel.C03.Tie", "SemaModel.C03.Formula"],
     "lean_dirs": ["SemaModel/C03", "SemaModel/C10"],
     "harness": "c03",
     "harness_args": {"quick": ["-n", 1000, "-len", 11], "thorough": ["-n", 7000, "-len", 14]},
@@ -9,6 +9,8 @@ SPEC = {
     "level": "proof",
     "tie": "T3 dump-and-search: after every batch of random histories (inserts, vector updates, vector removal, deletes, id reuse, batches naming a point twice, whole neighbourhoods deleted; degree bounds 1..5, search sizes 1..39, six metrics, none/binary/product quantisers, warm and cold cache) on a real file-backed shard the index is dumped through (*Shard).VerifDB(); for every query the dump, the real distance of the query to every stored vector (vectorstore.DistanceFromFloat of a store opened on the persisted bucket) and the pre-filter's node ids go to the Lean model of IndexVamana.Search/greedySearch/DistSet, whose answer (ids, order, distances, hybrid scores) must equal the answer of Shard.SearchPoints; the property oracle (brute force over the dump) judges the real answer directly, including each reported distance against the index's distance to the vector the point's DOCUMENT carries at the schema path right now (scratch vector store on the persisted bucket); the vector index is on a flat property in 45 % and on a NESTED path (n.v, n.m.v, a.b.c.v) in 55 % of the configurations, with updates that replace / delete the top-level object above the leaf, carry a sibling only, an empty object, a nil leaf or an unrelated key",
     "required_theorems": [
+        # formula theorems (Formula.lean; notes/T1ext.md section 8): the hybrid expression generated from vamana.go
+        "Sema.C03.C03_weight_default", "Sema.C03.C03_hybrid_formula", "Sema.C03.C03_hybrid_generated",
         "Sema.C03.C03_safe", "Sema.C03.C03_safe_shard", "Sema.C03.C03_rejects", "Sema.C03.C03_exact_filter",
         "Sema.C03.C03_exact_connected", "Sema.C03.C03_exact_small",
         # tie theorems (SemaModel/C03/Tie.lean, notes/T1ext.md section 7): the model's DistSet = the definitions generated from shard/index/vamana/distset.go
